@@ -35,6 +35,7 @@ def bomb(depth, breadth, blob_size, extra_blob=None, names=b"f"):
     if extra_blob is not None:
         eb = s.add({"kind": "blob", "size": extra_blob, "data": None})
         top_entries.append((0o100644, b"zz-huge", eb))
+        s.refs.append((b"refs/tags/huge-blob", eb))        # a lightweight tag of the blob itself: its size is listed by for-each-ref too
     top = s.add({"kind": "tree", "entries": top_entries})
     c = s.add({"kind": "commit", "tree": top, "parents": []})
     s.refs.append((b"refs/heads/main", c))
@@ -99,7 +100,7 @@ def bombs(ctx, res):
         for depth, breadth, size, extra in cases:
             sc = bomb(depth, breadth, size, extra)
             root = len(sc.objects) - 1
-            order = sc.enum_gitlike([root])
+            order = sc.enum_gitlike(sorted({root} | {x for _, x in sc.refs}, reverse=True))
             t0 = time.time()
             vals = SP.one_case(eng, res, sc, [], [], [], order, S.HIST_KEYS, "bomb", sample=(depth in (10, 40) and size in (6, 1000)))
             walls.append(round(time.time() - t0, 2))
